@@ -162,7 +162,9 @@ impl WriteAheadLog {
     }
 
     pub(crate) fn last_lsn(&self) -> Option<Lsn> {
-        self.header.last_lsn()
+        // The last sequence number handed out for the whole log; `self.header.last_lsn()` is only the
+        // last one stored in block zero and stops advancing once records go to numbered blocks.
+        self.header.metadata().wal_header.global_last_lsn
     }
 
     /// Runs the analysis phase of the ARIES recovery protocol.
